@@ -292,6 +292,9 @@ func (in *Interp) unop(instr *ssa.UnOp, x value) value {
 	case token.ARROW:
 		panic(unsupported{"channel receive"})
 	case token.MUL:
+		if sp, ok := x.(*symElemPtr); ok {
+			return in.iteSelect(sp.elems, sp.idx)
+		}
 		p, ok := x.(*value)
 		if !ok {
 			in.checkOpaque(x)
